@@ -246,7 +246,7 @@ func cborEdit(rt *rapid.T, root *cv) string {
 			sl.put(cTag(n, old))
 		}
 	case "untag":
-		if old.k == 'g' {
+		if old.k == 'g' && len(old.kids) > 0 { // an earlier edit may have dropped the tagged item
 			sl.put(old.kids[0])
 		} else {
 			sl.put(cTag(18, old))
